@@ -23,6 +23,9 @@ func make{{.Name}}s(opts ...func(*option[{{.Type}}])) Column {
 					fill[offset>>6] |= 1 << (offset & 0x3f)
 					data[offset] = r.{{.Name}}()
 				case commit.Merge:
+					if fill[offset>>6]&(1<<(offset&0x3f)) == 0 {
+						data[offset] = 0 // no value yet, do not merge into what a deleted row left behind
+					}
 					fill[offset>>6] |= 1 << (offset & 0x3f)
 					data[offset] = r.Swap{{.Name}}(opts.Merge(data[offset], r.{{.Name}}()))
 				case commit.Delete:
